@@ -230,7 +230,7 @@ def proxyIndex (s : Store) (index : Option Nat) : Option Nat :=
 
 def addProxy (s : Store) (addr n0 n1 : String) (host : Option String) (index : Option Nat) :
     Store × R Unit :=
-  if colonCount addr != 1 then (s, .err .invalidProxyAddress) else
+  if colonCount addr != 1 || n0 == n1 then (s, .err .invalidProxyAddress) else
   let h := host.getD (hostOfAddr addr)
   match proxyIndex s index with
   | none => (s, .err .missingIndex)
